@@ -88,6 +88,3 @@ func cmdVerify(args []string) {
 	fmt.Printf("%d/%d proved in %.1fs\n", np, len(all), time.Since(t0).Seconds())
 }
 
-func cmdCheck(args []string)    {}
-func cmdSelftest(args []string) {}
-func cmdReplay(args []string)   {}
